@@ -174,7 +174,11 @@ Definition agree (c : case) : bool :=
            (* the returned state is the model's; only when a stopping decision was borderline, the state after any
               number 1..iters of loop bodies (tol = -1: the model's rule never fires) *)
            let tr := admm_trace Qops (msolve' m) (apply_constr Qops k) UtM UtU m r tol iters x None dual in
-           negb (all_clear (fst tr))
+           (* a decision |a|^2 < tol^2 |b|^2 is clear-cut only if it also survives an absolute perturbation of b by rounding noise
+              (1e-9 x scale): in float64 a dual variable that is exactly zero in the model is noise, which a huge tol amplifies *)
+           let sc := qadd 1 (qadd (mmaxabs UtM) (qadd (mmaxabs x) (mmaxabs dual))) in
+           let slack := qmul (qmul tol tol) (qmul (1 # 1000000000000000000) (qmul sc sc)) in
+           negb (forallb (fun d => clear_dec d && negb (qle (qabs (qsub (fst d) (snd d))) slack)) (fst tr))
            && existsb (fun j => match admm_loop Qops (msolve' m) (apply_constr Qops k) UtM UtU m r (-1 # 1) j x None dual with
                                 | (a, Some b, c) => close3 (a, b, c) ti
                                 | _ => false end) (seq 1 iters)
